@@ -2,7 +2,6 @@ package props
 
 // NotApplicable lists the properties static analysis cannot decide, not even in part (DESIGN.md §5).
 var NotApplicable = [][2]string{
-	{"C02", "Value/order equivalence between comprehension/for-in/append lowering and its documented Go expansion is a property of the generated programs' runtime behaviour; the lowering emits code through gogen's stack machine and legitimately compiles sub-expressions more than once (type probing), so no clause has a sound structural form in cl."},
 	{"C10", "Overload resolution is performed by gogen at type-check time over runtime type sets; cl only registers the candidates, so nothing in /repo's source shape determines which candidate is chosen."},
 	{"C11", "Behavioural equivalence of a class file and its explicit struct form is a property of generated programs; the type construction is delegated to gogen."},
 	{"C12", "The Defs/Uses/Types invariants relate object identities and positions created inside gogen at run time; no rule over cl/recorder.go bounds them without executing the type checker."},
